@@ -257,7 +257,7 @@ func (ps *cparser) expr(minPrec int) CExpr {
 
 func (ps *cparser) unary() CExpr {
 	t := ps.peek()
-	if t.kind == "op" && (t.val == "!" || t.val == "-" || t.val == "^") {
+	if t.kind == "op" && (t.val == "!" || t.val == "-" || t.val == "^" || t.val == "*") {
 		ps.p++
 		return CUn{t.val, ps.unary()}
 	}
